@@ -242,6 +242,19 @@ func H_C19_stored() {
 	hostL := NewList(do, dl)
 	hostL.SetTF("#0.extra", 1).SetTF("#1#5", 2).UnsetTF("#0.extra")
 	verifAssert(host.Get("d") == any(do) && host.Get("l") == any(dl) && hostL.Get(0) == any(do) && hostL.Get(1) == any(dl), "a tree-form write below a stored derived value reuses it (the identical outer value stays stored)")
+	// storing a two-level derived value through its embedded-level pointer (e.g. by a method of the intermediate
+	// type that adds its receiver to a container) does not change what is registered: Ego and the fluent
+	// methods of the derived value still return the outer value. (What the container hands back for a stored
+	// embedded-level pointer is not judged: the property speaks of stored outer values.)
+	if ddl, isDD := dl.(*hDDList); isDD {
+		if ddo, isDDO := do.(*hDDObject); isDDO {
+			NewList(ddl.hDList, ddo.hDObject)
+			NewObject("l", ddl.hDList, "o", ddo.hDObject).Set("l2", ddl.hDList)
+			NewList().Add(ddo.hDObject).Insert(0, ddl.hDList)
+			eok := dl.Ego() == dl && do.Ego() == do && dl.Reverse() == dl && do.Unset("nope") == do
+			verifAssert(eok, "storing a derived value through its embedded-level pointer leaves its registration alone: Ego and fluent methods still return the outer value")
+		}
+	}
 	ok := true
 	ok = ok && pl.Get(1) == any(dl) && pl.Get(2) == any(do)
 	ok = ok && pl.GetList(1) == dl && pl.GetObject(2) == do
